@@ -350,12 +350,18 @@ def PyT.ty : PyT → Ty
 def effOptional (pydantic : Bool) (fd : FieldDesc) : Bool :=
   fd.proto3Optional || (pydantic && fd.group.isSome)
 
+def builtinsName (n : Str) : Str := "builtins.".toList ++ n
+def argWraps (w : Str) : Str := "wraps=".toList ++ w
+def argOptional : Str := "optional=True".toList
+def argGroup (g : Str) : Str := "group=\"".toList ++ g ++ "\"".toList
+def bpConst (x : Str) : Str := "betterproto.".toList ++ x
+
 /-- the type expression `FieldCompiler.annotation` / `MapEntryCompiler.annotation` builds -/
 def annotationTy (pydantic : Bool) (fd : FieldDesc) : Ty :=
   if fd.isMap then .dict fd.mapK fd.mapV.ty
   else
     let base : Ty := match fd.useBuiltins, fd.pyType with
-      | true, .scalar n => .name ("builtins.".toList ++ n)
+      | true, .scalar n => .name (builtinsName n)
       | _, p => p.ty
     if fd.repeated then .list base
     else if effOptional pydantic fd then .optional base
@@ -368,11 +374,11 @@ def natStr (n : Nat) : Str := (toString n).toList
 
 /-- `betterproto_field_args` (FieldCompiler, OneOfFieldCompiler, MapEntryCompiler) -/
 def fieldArgs (pydantic : Bool) (fd : FieldDesc) : List Str :=
-  if fd.isMap then ["betterproto.".toList ++ fd.protoK, "betterproto.".toList ++ fd.protoV]
+  if fd.isMap then [bpConst fd.protoK, bpConst fd.protoV]
   else
-    (match fd.wraps with | some w => ["wraps=".toList ++ w] | none => [])
-    ++ (if effOptional pydantic fd then ["optional=True".toList] else [])
-    ++ (match fd.group with | some g => ["group=\"".toList ++ g ++ "\"".toList] | none => [])
+    (match fd.wraps with | some w => [argWraps w] | none => [])
+    ++ (if effOptional pydantic fd then [argOptional] else [])
+    ++ (match fd.group with | some g => [argGroup g] | none => [])
 
 /-- `betterproto.<type>_field(<number>, <args>)` -/
 def fieldCall (pydantic : Bool) (fd : FieldDesc) : Str :=
